@@ -1,6 +1,8 @@
 import FeatModel.Lemmas.C01Csr
 import FeatModel.Lemmas.C01Bcsr
 import FeatModel.Lemmas.C01Dense
+import FeatModel.Lemmas.C01Cscr
+import FeatModel.Lemmas.C01Banded
 /-! result sizes of the leaf containers' `apply` members (needed to compose them in meta-matrices) -/
 namespace FeatModel.LA
 
@@ -109,5 +111,102 @@ theorem Dense.applyAxpy_size {α : Type} [Field α] (tiny : α → Bool) (A : De
         rw [← h]; cases ali <;> simp [hc'.1.1, hc'.2]
       · simp only [Dense.applyAxpy, hc, h0, h1, Bool.false_eq_true, if_false, Option.some.injEq] at h
         rw [← h]; cases tr <;> simp [Dense.kernel, Dense.kernelT]
+
+theorem Cscr.rowLoop_size {α : Type} [Field α] (A : Cscr α) (a b : α) (x r : Array α) :
+    (Cscr.rowLoop A a b x r).size = r.size := by
+  unfold Cscr.rowLoop
+  have : ∀ (L : List Nat) (r : Array α), (L.foldl (fun r nzrow =>
+      r.setIfInBounds (A.rowNumbers.getD nzrow 0)
+        ((A.rowSum x nzrow * a) + (b * r.getD (A.rowNumbers.getD nzrow 0) 0))) r).size = r.size := by
+    intro L
+    induction L with
+    | nil => intro r; rfl
+    | cons k L ih => intro r; rw [List.foldl_cons, ih, Array.size_setIfInBounds]
+  exact this _ r
+
+theorem Cscr.kernel_size {α : Type} [Field α] (tiny : α → Bool) (A : Cscr α) (a b : α) (x y r : Array α) (ali tr : Bool)
+    (hr : r.size = if tr then A.cols else A.rows) (hy : y.size = if tr then A.cols else A.rows) :
+    (A.kernel tiny a b x y r ali tr).size = if tr then A.cols else A.rows := by
+  cases tr
+  · simp only [Bool.false_eq_true, if_false] at hr hy ⊢
+    have hk : A.kernel tiny a b x y r ali false = Cscr.rowLoop A a b x (initR tiny A.rows b r y ali) := by
+      simp [Cscr.kernel, Cscr.rowLoop]
+    rw [hk, Cscr.rowLoop_size, initR_size tiny A.rows b r y ali hr hy]
+  · simp only [if_true] at hr hy ⊢
+    have hk : A.kernel tiny a b x y r ali true
+        = (Cscr.scatterT A x ((initR tiny A.cols b r y ali).map (b / a * ·))).map (a * ·) := by
+      simp [Cscr.kernel, Cscr.scatterT]
+    rw [hk]
+    simp [Cscr.scatterT_size, initR_size tiny A.cols b r y ali hr hy]
+
+theorem Cscr.apply_size {α : Type} [Field α] (tiny : α → Bool) (A : Cscr α) (x r r' : Array α) (tr : Bool)
+    (h : A.apply tiny x r tr = some r') : r'.size = if tr then A.cols else A.rows := by
+  by_cases hc : (r.size != (if tr then A.cols else A.rows) || x.size != (if tr then A.rows else A.cols)) = true
+  · simp [Cscr.apply, hc] at h
+  · have hc' := hc
+    simp only [Bool.or_eq_true, bne_iff_ne, ne_eq, not_or, Decidable.not_not] at hc'
+    by_cases h0 : (A.usedElements == 0) = true
+    · simp only [Cscr.apply, hc, h0, if_true, Bool.false_eq_true, if_false, Option.some.injEq] at h
+      rw [← h]; simp [hc'.1]
+    · simp only [Cscr.apply, hc, h0, Bool.false_eq_true, if_false, Option.some.injEq] at h
+      rw [← h]; exact Cscr.kernel_size tiny A 1 0 x r r true tr hc'.1 hc'.1
+
+theorem Cscr.applyAxpy_size {α : Type} [Field α] (tiny : α → Bool) (A : Cscr α) (x y r r' : Array α) (al : α)
+    (ali tr : Bool) (h : A.applyAxpy tiny x y r al ali tr = some r') : r'.size = if tr then A.cols else A.rows := by
+  by_cases hc : (r.size != (if tr then A.cols else A.rows) || x.size != (if tr then A.rows else A.cols)
+      || y.size != (if tr then A.cols else A.rows)) = true
+  · simp [Cscr.applyAxpy, hc] at h
+  · have hc' := hc
+    simp only [Bool.or_eq_true, bne_iff_ne, ne_eq, not_or, Decidable.not_not] at hc'
+    by_cases h0 : (A.usedElements == 0 || tiny al) = true
+    · simp only [Cscr.applyAxpy, hc, h0, if_true, Bool.false_eq_true, if_false, Option.some.injEq] at h
+      rw [← h]; cases ali <;> simp [hc'.1.1, hc'.2]
+    · simp only [Cscr.applyAxpy, hc, h0, Bool.false_eq_true, if_false, Option.some.injEq] at h
+      rw [← h]; exact Cscr.kernel_size tiny A al 1 x y r ali tr hc'.1.1 hc'.2
+
+theorem Banded.bandedLoop_size {α : Type} [Field α] (A : Banded α) (alpha beta : α) (x r : Array α) :
+    (A.bandedLoop alpha beta x r).size = r.size := by
+  rw [Banded.bandedLoop_eq]
+  have inner : ∀ (i : Nat) (L : List Nat) (r : Array α),
+      (L.foldl (fun r j => Banded.cellStep A alpha beta x i j r) r).size = r.size := by
+    intro i L
+    induction L with
+    | nil => intro r; rfl
+    | cons a L ih => intro r; rw [List.foldl_cons, ih, Banded.cellStep_size]
+  have outer : ∀ (L : List Nat) (r : Array α),
+      (L.foldl (fun r i => (List.range (A.noo + 1)).reverse.foldl (fun r j => Banded.cellStep A alpha beta x i j r) r) r).size
+        = r.size := by
+    intro L
+    induction L with
+    | nil => intro r; rfl
+    | cons a L ih => intro r; rw [List.foldl_cons, ih, inner]
+  exact outer _ r
+
+theorem Banded.apply_size {α : Type} [Field α] (tiny : α → Bool) (A : Banded α) (x r r' : Array α)
+    (h : A.apply tiny x r false = some r') : r'.size = A.rows := by
+  by_cases hc : (r.size != A.rows || x.size != A.cols) = true
+  · simp [Banded.apply, hc] at h
+  · have hc' := hc
+    simp only [Bool.or_eq_true, bne_iff_ne, ne_eq, not_or, Decidable.not_not] at hc'
+    by_cases h0 : (r.size == 0 && x.size == 0) = true
+    · simp [Banded.apply, hc, h0] at h
+    · simp only [Banded.apply, hc, h0, Bool.false_eq_true, if_false, Option.some.injEq] at h
+      rw [← h]
+      simp [Banded.kernel, Banded.bandedLoop_size, initR_size tiny A.rows 0 r r true hc'.1 hc'.1]
+
+theorem Banded.applyAxpy_size {α : Type} [Field α] (tiny : α → Bool) (A : Banded α) (x y r r' : Array α) (al : α)
+    (ali : Bool) (h : A.applyAxpy tiny x y r al ali false = some r') : r'.size = A.rows := by
+  by_cases hc : (r.size != A.rows || x.size != A.cols || y.size != A.rows) = true
+  · simp [Banded.applyAxpy, hc] at h
+  · have hc' := hc
+    simp only [Bool.or_eq_true, bne_iff_ne, ne_eq, not_or, Decidable.not_not] at hc'
+    by_cases h0 : (r.size == 0 && x.size == 0) = true
+    · simp [Banded.applyAxpy, hc, h0] at h
+    · by_cases h1 : (A.usedElements == 0 || tiny al) = true
+      · simp only [Banded.applyAxpy, hc, h0, h1, if_true, Bool.false_eq_true, if_false, Option.some.injEq] at h
+        rw [← h]; cases ali <;> simp [hc'.1.1, hc'.2]
+      · simp only [Banded.applyAxpy, hc, h0, h1, Bool.false_eq_true, if_false, Option.some.injEq] at h
+        rw [← h]
+        simp [Banded.kernel, Banded.bandedLoop_size, initR_size tiny A.rows 1 r y ali hc'.1.1 hc'.2]
 
 end FeatModel.LA
